@@ -6,13 +6,17 @@ cd "$(dirname "$0")"
 export GOFLAGS=-mod=mod GOPROXY=off GOSUMDB=off GOTOOLCHAIN=local
 command -v tlc >/dev/null || { echo "tlc missing"; exit 1; }
 command -v go >/dev/null || { echo "go missing"; exit 1; }
+command -v tlapm >/dev/null || { echo "tlapm missing"; exit 1; }
 python3 -c 'import json,sys' 
 tmp=$(mktemp -d)
 trap 'rm -rf "$tmp"' EXIT
 cp spec/*.tla "$tmp"/
 ( cd "$tmp" && for m in *.tla; do
     case "$m" in
-      *Trace*.tla|Resolver*.tla|MC_*.tla) ;; # need data files at parse/eval time; parsed by the checks
+      *Proof.tla) # proof modules extend TLAPS.tla, which only tlapm knows: re-check the proofs instead of parsing with SANY
+        timeout 900 tlapm --threads 16 --cleanfp "$m" >"$tmp/tlapm.out" 2>&1 && grep -q "obligations proved" "$tmp/tlapm.out" \
+          || { tail -20 "$tmp/tlapm.out"; echo "tlapm failed on $m"; exit 1; }
+        continue ;;
     esac
     tla-sany "$m" >"$tmp/sany.out" 2>&1 || { cat "$tmp/sany.out"; echo "SANY failed on $m"; exit 1; }
   done )
